@@ -361,6 +361,16 @@ def fanout_fail_family(tier="quick"):
         # Fail state branch (no task): sibling Task
         d = chain(("P", Parallel([chain(("A1", Fail("E1", "failstate"))), _branch("B", 1)], **h)), Z)
         out.append(scenario("parfail-A-failstate-%s" % hname, d, workers=_okworkers(d), family="parfail-failstate-%s" % hname))
+        # a sibling whose own failure was caught inside its branch and whose recovery Task is outstanding (its slot holds a marker, not a result)
+        a = chain(("A1", Task("f_A1", Catch=[{"ErrorEquals": ["States.ALL"], "Next": "A2", "ResultPath": "$.e"}])), ("A2", Task("f_A2")))
+        d = chain(("P", Parallel([a, _branch("B", 1)], **h)), Z)
+        w = _okworkers(d, {"f_A1": {"*": ERR("E9")}, "f_A2": {"*": [["delay", ["ok", "a2"]]]}, "f_B1": {"*": [["delay", ["err", "E1", "boom"]]]}})
+        out.append(scenario("parfail-B-task-Acaught-recovering-%s" % hname, d, workers=w, family="parfail-recovering-sibling-%s" % hname))
+        # a sibling that is waiting out a Retry interval (no request outstanding, a delegate timer armed) when the other branch fails
+        a = chain(("A1", Task("f_A1", Retry=[{"ErrorEquals": ["E9"], "IntervalSeconds": 2, "MaxAttempts": 2, "BackoffRate": 1.0}])))
+        d = chain(("P", Parallel([a, _branch("B", 1)], **h)), Z)
+        w = _okworkers(d, {"f_A1": {"*": [["err", "E9", "again"], ["ok", "a-second-try"]]}, "f_B1": {"*": [["delay", ["err", "E1", "boom"]]]}})
+        out.append(scenario("parfail-B-task-Aretrying-%s" % hname, d, workers=w, family="parfail-retrying-sibling-%s" % hname))
         # both branches fail (different errors)
         d = chain(("P", Parallel([_branch("A", 1), _branch("B", 1)], **h)), Z)
         w = _okworkers(d, {"f_A1": {"*": ERR("E1")}, "f_B1": {"*": ERR("E2")}})
